@@ -307,6 +307,8 @@ uper_sot_suck(const asn_codec_ctx_t *ctx, const asn_TYPE_descriptor_t *td,
 	(void)sptr;
 
 	while(per_get_few_bits(pd, 24) >= 0);
+	/* The tail which is shorter than 24 bits */
+	while(per_get_few_bits(pd, 1) >= 0);
 
 	rv.code = RC_OK;
 	rv.consumed = pd->moved;
